@@ -1,4 +1,4 @@
 SPECIFICATION Spec
-CONSTANTS MaxDepth = 2 MaxN = 2 MaxHistView = 0 Fault = "stride-forward-only"
+CONSTANTS MaxDepth = 2 MaxN = 2 MaxHistView = 0 HistClassIdx = {4, 5} Fault = "stride-forward-only"
 INVARIANTS InvStep InvAccumulated InvOutput
 CHECK_DEADLOCK FALSE
